@@ -9801,6 +9801,19 @@ func (l *Lowerer) emitFinish(start ir.ExpressionHandle, target *[]ir.Statement) 
 	l.currentEmitTarget = nil
 }
 
+// flushEmitterBefore emits the pending expression range into target and
+// restarts the emitter, so that a statement appended next finds its operands
+// already evaluated (the pattern lowerCall uses around StmtCall).
+func (l *Lowerer) flushEmitterBefore(target *[]ir.Statement) {
+	if l.emitStateStart == nil {
+		return
+	}
+	l.emitFinish(*l.emitStateStart, target)
+	newStart := l.currentExprIdx
+	l.emitStateStart = &newStart
+	l.currentEmitTarget = target
+}
+
 // interruptEmitter adds a non-emittable expression (Literal, GlobalVariable,
 // Constant, Override, LocalVariable, FunctionArgument, CallResult, etc.)
 // while ensuring it falls outside any emit range.
@@ -14983,6 +14996,8 @@ func (l *Lowerer) lowerTextureAtomic(name string, args []parser.Expr, target *[]
 		fun = ir.AtomicExclusiveOr{}
 	}
 
+	// The operands must be evaluated before the statement that uses them.
+	l.flushEmitterBefore(target)
 	*target = append(*target, ir.Statement{
 		Kind: ir.StmtImageAtomic{
 			Image:      image,
@@ -15183,6 +15198,8 @@ func (l *Lowerer) lowerAtomicStore(args []parser.Expr, target *[]ir.Statement) (
 
 	// Rust naga emits a plain Store for atomicStore, not an Atomic statement.
 	// See naga/src/front/wgsl/lower/mod.rs around line 2895.
+	// The operands must be evaluated before the statement that uses them.
+	l.flushEmitterBefore(target)
 	*target = append(*target, ir.Statement{
 		Kind: ir.StmtStore{
 			Pointer: pointer,
